@@ -163,7 +163,7 @@ func journalFP(j *ast.Journal) []string {
 		case ast.YearDirective:
 			out = append(out, fmt.Sprintf("dir%d|Y|%d", di, x.Year))
 		case ast.DefaultCommodityDirective:
-			out = append(out, fmt.Sprintf("dir%d|D|%s|%s", di, x.Symbol, x.Format))
+			out = append(out, fmt.Sprintf("dir%d|D|%s|%s", di, strings.TrimRight(x.Symbol, " \t"), x.Format))
 		default:
 			out = append(out, fmt.Sprintf("dir%d|%T", di, d))
 		}
@@ -682,6 +682,15 @@ func textFeatures(text string) []string {
 			if strings.HasPrefix(n, " ") || strings.HasPrefix(n, "\t") {
 				out = append(out, "text.blank-line-then-indented")
 				break
+			}
+			// the same trimming below an indented line with more text to follow: the blanks-only line
+			// was part of the entry above (an indent token), the empty line it becomes is not
+			if i > 0 && strings.TrimSpace(n) != "" {
+				p := strings.TrimSuffix(lines[i-1], "\r")
+				if (strings.HasPrefix(p, " ") || strings.HasPrefix(p, "\t")) && strings.TrimSpace(p) != "" {
+					out = append(out, "text.blank-line-below-indented")
+					break
+				}
 			}
 		}
 	}
